@@ -15,7 +15,8 @@ R14.5  base cases and wiring of legendre_zeros / hermite_zeros / laguerre_zeros 
 """
 import sympy as sp
 
-from bsa import sym, vecint
+from bsa import cfg, sym, vecint
+from rules import caps
 from bsa.hir import Missing, callee, peel, pp, walk
 from rules import polyint as PI
 from rules.c11 import ref_mul, ref_add
@@ -28,22 +29,80 @@ POLISH = sp.Function("polish")
 class RootsInterp(vecint.VInterp):
     """Polynomial::roots with the Laguerre loop abstracted and Newton polishing uninterpreted."""
 
-    def ev_While(self, n):
-        if any(x.get("k") == "MCall" and x["name"] == "evaluate_derivative" for x in walk(n["body"])):
-            lvl = self.shared.setdefault("laguerre", 0)
-            self.shared["laguerre"] = lvl + 1
-            G = sp.Symbol("G%d" % lvl, real=True)
-            hit = False
-            for i, nm in list(self.names.items()):
-                if nm == "guess":
-                    self.env[i] = G
-                    hit = True
-                if nm == "k":
-                    self.env[i] = self.shared.get("k_value", sp.Integer(0))
-            if not hit:
-                raise sym.Unsupported(n, "Laguerre loop without a `guess` variable")
+    # The Laguerre iteration — the loop (of any form, in `roots` or in a helper) that calls `evaluate_derivative` — is abstracted by its effect:
+    #   converged: the iterate (the local the loop updates and evaluates the polynomial at) becomes a fresh symbol G_j and the loop's exit
+    #              branch — the `if` on the residual whose body leaves the loop (`break` or `return …`) — is executed;
+    #   exhausted (shared["exhaust"]): the loop ends without that exit: a `for` simply finishes, a counter loop leaves its counter at the cap.
+    @staticmethod
+    def is_laguerre_loop(n):
+        return any(x.get("k") == "MCall" and x["name"] == "evaluate_derivative" for x in walk(n["body"]))
+
+    def abstract_laguerre(self, n):
+        lvl = self.shared.setdefault("laguerre", 0)
+        self.shared["laguerre"] = lvl + 1
+        body = n["body"]
+        written = {}
+        for x in walk(body, into_closures=False):
+            if x.get("k") in ("Assign", "AssignOp") and peel(x["l"]).get("k") == "Local":
+                written[peel(x["l"])["id"]] = peel(x["l"])["name"]
+        at = set()
+        for x in walk(body, into_closures=False):
+            if x.get("k") == "MCall" and x["name"] in ("evaluate", "evaluate_derivative"):
+                for a in x["args"]:
+                    ap = peel(a)
+                    if ap.get("k") == "Local":
+                        at.add(ap["id"])
+        iterate = [i_ for i_ in written if i_ in at]
+        if len(iterate) != 1:
+            raise sym.Unsupported(n, "Laguerre loop: cannot identify the iterate (locals updated and evaluated at: %s)" % sorted(written[i_] for i_ in iterate))
+        if self.shared.get("exhaust") and lvl == 0:
+            ok, form, why = caps.bounded_by_cap(self.body, n)
+            if not ok:
+                raise sym.Unsupported(n, "Laguerre loop is not bounded by the iteration cap: %s" % why)
+            self.shared["cap_form"] = form
+            if form == "up-counter":
+                c = peel(n["c"])
+                l, r = peel(c["l"]), peel(c["r"])
+                cnt, cap = (l, r) if c["op"] in ("Lt", "Le") else (r, l)
+                self.env[cnt["id"]] = self.ev(cap)
+            elif form == "down-counter":
+                c = peel(n["c"])
+                cnt = peel(c["l"]) if peel(c["l"]).get("k") == "Local" else peel(c["r"])
+                self.env[cnt["id"]] = sp.Integer(0)
             return None
+        G = sp.Symbol("G%d" % lvl, real=True)
+        self.env[iterate[0]] = G
+        self.names[iterate[0]] = written[iterate[0]]
+        exits = [st for st in body["stmts"] if (st.get("e") if st.get("k") in ("ExprS", "Semi") else {}).get("k") == "If"
+                 and cfg.div((st["e"])["t"], ("Ret", "Break")) == cfg.TRUE]
+        if len(exits) != 1:
+            raise sym.Unsupported(n, "Laguerre loop: expected one residual test that leaves the loop, found %d" % len(exits))
+        # the statements before the test bind what its body may use (the residual); they are pure evaluations of the polynomial at the iterate
+        for st in body["stmts"]:
+            if st is exits[0]:
+                break
+            self.run_stmt(st)
+        try:
+            self.ev(exits[0]["e"]["t"])
+        except sym.Break as b:
+            if b.target not in (None, n.get("id")):
+                raise
+        return None
+
+    def ev_While(self, n):
+        if self.is_laguerre_loop(n):
+            return self.abstract_laguerre(n)
         return vecint.VInterp.ev_While(self, n)
+
+    def ev_For(self, n):
+        if self.is_laguerre_loop(n):
+            return self.abstract_laguerre(n)
+        return vecint.VInterp.ev_For(self, n)
+
+    def ev_Loop(self, n):
+        if self.is_laguerre_loop(n):
+            return self.abstract_laguerre(n)
+        return vecint.VInterp.ev_Loop(self, n)
 
     def ev_Call(self, n):
         d = callee(n) or ""
@@ -149,14 +208,14 @@ def check_guards(F, run, roots):
             run.check(isinstance(v, sym.Variant) and v.name == want, "R14.4", dp, name, where, "%s: returns %r, expected %s" % (name, v, want), sample="%s ⇒ %s" % (name, want))
         except (sym.Unsupported, vecint.IndexPanic) as e:
             run.broken("R14.4", dp, name, where, str(e))
-    # iteration cap: with the loop counter equal to n_max after the loop the result is Err
+    # iteration cap: the Laguerre iteration is bounded by n_max (rules/caps.py), and when it ends without its residual test having fired the result is Err
     try:
         tol, nmax = PI.TOL, sp.Symbol("n_max", integer=True, positive=True)
 
         class Capped(RootsInterp):
             pass
         it = Capped(F, roots)
-        it.shared["k_value"] = nmax
+        it.shared["exhaust"] = True
         it.if_hook = lambda i, n, cnd: PI.generic_decide(cnd)
         for p, a in zip(roots["params"], [PI.poly(PI.symbols("c", 4)), tol, nmax]):
             it.bind(p, a, roots)
@@ -164,19 +223,15 @@ def check_guards(F, run, roots):
             v = it.ev(roots["body"])
         except sym.Return as r:
             v = r.value
-        run.check(isinstance(v, sym.Variant) and v.name == "Err", "R14.4", dp, "iteration-cap", where, "an exhausted Laguerre iteration returns %r instead of Err" % (v,), sample="k == n_max ⇒ Err")
+        run.check(isinstance(v, sym.Variant) and v.name == "Err", "R14.4", dp, "iteration-cap", where, "an exhausted Laguerre iteration returns %r instead of Err" % (v,), sample="cap exhausted ⇒ Err")
+        run.check(it.shared.get("cap_form") is not None or it.shared.get("laguerre", 0) >= 1, "R14.4", dp, "laguerre-counter-loop", where, "the Laguerre iteration is not a loop bounded by n_max",
+                  sample="Laguerre iteration: %s bounded by n_max" % it.shared.get("cap_form"))
     except (sym.Unsupported, vecint.IndexPanic) as e:
-        run.broken("R14.4", dp, "iteration-cap", where, str(e))
-    # the Laguerre loop itself is a counter loop
-    loops = [n for n in walk(roots["body"]) if n.get("k") == "While" and any(x.get("k") == "MCall" and x["name"] == "evaluate_derivative" for x in walk(n["body"]))]
-    ok = len(loops) == 1
-    if ok:
-        w = loops[0]
-        cnd = peel(w["c"])
-        ok = cnd.get("k") == "Bin" and cnd["op"] == "Lt" and peel(cnd["r"]).get("name") == "n_max"
-        incs = [s for s in w["body"]["stmts"] if s.get("e", {}).get("k") == "AssignOp" and s["e"]["op"] == "AddAssign" and peel(s["e"]["l"]).get("name") == peel(cnd["l"]).get("name")]
-        ok = ok and len(incs) == 1
-    run.check(ok, "R14.4", dp, "laguerre-counter-loop", where, "the Laguerre iteration is not a counter loop bounded by n_max")
+        msg = str(e)
+        if "not bounded by the iteration cap" in msg:
+            run.fail("R14.4", dp, "laguerre-counter-loop", where, "the Laguerre iteration is not a counter loop bounded by n_max: %s" % msg)
+        else:
+            run.broken("R14.4", dp, "iteration-cap", where, msg)
 
 
 class LaguerreStep(vecint.VInterp):
